@@ -496,6 +496,10 @@ class GatherMixin:
                 if isinstance(k, str):
                     if isinstance(v, (SArr, LArr)):
                         v = SData(v, name=k)
+                    if isinstance(v, SData):
+                        self.alignment_obligations(base, v, st, t)
+                        if v.owner is None:
+                            v.owner = base
                     base.vars[k] = v
                     return
             from .lazy import _Map
@@ -734,6 +738,30 @@ class GatherMixin:
         self._ds_count = getattr(self, "_ds_count", 0) + 1
         return SDs("dataset%d" % self._ds_count, variables, coords, {}, {})
 
+    def alignment_obligations(self, dst, v, st, node):
+        """ds[k] = DataArray labelled by another dataset: xarray aligns by coordinate LABELS (reindexing, NaN-filling, dtype
+        change when they differ).  The model assigns positionally, which is what xarray does exactly when the labels of the
+        shared dimensions are equal -- shown here as an obligation, not assumed."""
+        src = getattr(v, "owner", None)
+        if src is None or src is dst or self.spec:
+            return
+        for dim in ("row", "col"):
+            a, b = dst.coords.get(dim), src.coords.get(dim)
+            if a is None or b is None or a is b:
+                continue
+            aa, bb = a.arr if isinstance(a, SData) else a, b.arr if isinstance(b, SData) else b
+            if aa is bb:
+                continue
+            if not (is_arr(aa) and is_arr(bb)):
+                raise Unsupported("coordinate labels of %s are not arrays (line %d)" % (dim, node.lineno))
+            i = z3.Int(fresh_name("al"))
+            na, nb = zi(shape_of(aa)[0]), zi(shape_of(bb)[0])
+            ea, eb = elem(aa, [i], st), elem(bb, [i], st)
+            same = compare("==", _num(ea), _num(eb), True)
+            self.emit(st, "pre@call", "align.%s.L%d" % (dim, node.lineno),
+                      z3.And(na == nb, z3.ForAll([i], z3.Implies(z3.And(i >= 0, i < na), zb(as_bool(same))))), node,
+                      "the %s labels of the assigned DataArray equal the dataset's (xarray aligns by label)" % dim)
+
     def copy_array(self, a, st):
         if isinstance(a, SArr):
             from .state import new_cell
@@ -745,7 +773,7 @@ class GatherMixin:
 
     def copy_value(self, v, st):
         if isinstance(v, SData):
-            return SData(self.copy_array(v.arr, st), v.dims, v.name)
+            return SData(self.copy_array(v.arr, st), v.dims, v.name, getattr(v, "owner", None))
         if is_arr(v):
             return self.copy_array(v, st)
         if isinstance(v, SDs):
